@@ -150,6 +150,7 @@ func checkC12(c *core.Ctx) {
 			}
 		}
 	}
+	reuseLosses(c, false)
 }
 
 /* ---------------- C14 ---------------- */
@@ -359,4 +360,5 @@ func checkC14(c *core.Ctx) {
 			})
 		}
 	}
+	reuseActivations(c, false)
 }
